@@ -742,6 +742,18 @@ func (ex *Exec) evCall(x *SCall, env *Env) Val {
 		return ex.ev(x.Args[i], env)
 	}
 	switch x.Fn {
+	case "iterstart":
+		// value of the expression at the head of the current iteration
+		if env.li == nil || env.li.headState == nil {
+			ex.specFail("iterstart() outside a loop step / invariant")
+		}
+		n := *env
+		n.st = env.li.headState
+		return ex.ev(x.Args[0], &n)
+	case "emptysmap":
+		return Val{T: ex.V.constArr(ex, ArrS(SInt, SStr), ex.emptyStr()), Ty: tySMap}
+	case "emptyimap":
+		return Val{T: ex.V.constArr(ex, ArrS(SInt, SInt), IntLit(0)), Ty: tyIMap}
 	case "preloop":
 		// value of the expression in the state in which the loop was entered
 		if env.li == nil || env.li.entryState == nil {
@@ -889,6 +901,18 @@ func (ex *Exec) evCall(x *SCall, env *Env) Val {
 		return Val{T: ex.V.fnConstByKey(ex, k.Val), Ty: tyRef}
 	case "subobj":
 		ex.specFail("use field selection for sub-objects")
+	case "seqof":
+		// the (immutable) sequence of the elements of a slice of references / ints
+		a := arg(0)
+		if a.T.S != SSlice {
+			ex.specFail("seqof: not a slice")
+		}
+		es := sortOf(a.Ty.Underlying().(*types.Slice).Elem())
+		if es != SInt {
+			ex.specFail("seqof: element sort %s unsupported", es)
+		}
+		h := ex.getHeap(st, heapArrName(es), ArrS(SInt, ArrS(SInt, es)))
+		return Val{T: MkSeq(ex.D.Fn("seqshift", ArrS(SInt, SInt), Select(h, SlBase(a.T)), SlOff(a.T)), SlLen(a.T)), Ty: tySeq}
 	case "emptyseq":
 		return Val{T: MkSeq(ex.V.constArr(ex, ArrS(SInt, SInt), IntLit(0)), IntLit(0)), Ty: tySeq}
 	case "emptyset":
